@@ -149,6 +149,20 @@ def check_constructors(ctx, config):
                 ctx.ok('R4', '%s (non-generic, delegates)' % arena.short(b['id']), 'constructs through a generic constructor that is itself checked')
                 continue
             le16 = P.le(arena.MIN, C(16)) if any(f[0] in ('le', 'lt') and arena.MIN in f for f in facts) else False
+            # ... and not more than that: every supported minimum alignment reaches this return (a validation that is
+            # too strict refuses an arena the property promises)
+            refused = []
+            for v in (1, 2, 4, 8, 16):
+                for f in facts:
+                    if f[0] in ('lt', 'le', 'eq', 'ne') and len(f) == 3 and all(x == arena.MIN or is_c(x) for x in f[1:]) and arena.MIN in f[1:]:
+                        a_, b_ = [(v if x == arena.MIN else x[1]) for x in f[1:]]
+                        holds = {'lt': a_ < b_, 'le': a_ <= b_, 'eq': a_ == b_, 'ne': a_ != b_}[f[0]]
+                        if not holds:
+                            refused.append(v)
+            if refused:
+                ctx.violation('R4', arena.short(b['id']), 'return:refuses-supported', 'the validation on the way to this return refuses the supported minimum alignment(s) %s' % sorted(set(refused)), b.get('span'))
+            else:
+                ctx.ok('R4', '%s return alternative %d: every supported MIN_ALIGN (1, 2, 4, 8, 16) passes the validation' % (arena.short(b['id']), i), 'the must-facts about MIN_ALIGN evaluated at each supported value')
             for nm, okv in (('is_power_of_two(MIN_ALIGN)', pow2), ('MIN_ALIGN <= CHUNK_ALIGN', le16)):
                 if okv:
                     ctx.ok('R4', '%s return alternative %d: %s' % (arena.short(b['id']), i, nm), 'must-fact on every path to this return (failing edge is a panic exit)')
